@@ -22,7 +22,11 @@ contract(
 )
 class_spec(file=P, cls="UnpackedObject", fields={"decomp_len": "int?", "decomp_chunks": "chunks", "crc32": "int?", "comp_chunks": "opaque"})
 contract(prop=["C04"], file="<stdlib>", func="binascii.crc32", trusted=True,
-         params={"data": "bytes", "value": "int"}, returns="int", ensures=["0 <= result and result < 2 ** 32"])
+         params={"data": "bytes", "value": "int"}, returns="int",
+         # ghost accounting (C02): crc_fed(v) = number of bytes accumulated in the running checksum v.  CRC values are
+         # treated as abstract tokens (the code under contract never compares them)
+         ensures=["0 <= result and result < 2 ** 32", "ufi('crc_fed', result) == ufi('crc_fed', value) + len(data)"],
+         note="running CRC-32: crc32(b, crc32(a, v)) == crc32(a + b, v); only the byte count is tracked")
 contract(prop=["C04"], file="<abstract>", func="read_some", trusted=True,
          params={"n": "int"}, returns="bytes", raises={"Exception": None}, ensures=["len(result) <= n or n < 0"],
          note="the caller-supplied read callable: returns at most n bytes")
@@ -40,12 +44,18 @@ for _f, _params, _ret in (
             # what was inflated is exactly the declared size: a stream cannot make us hold more than it declares
             "unpacked.decomp_len is not None",
             "chunks_length(unpacked.decomp_chunks) == old(chunks_length(unpacked.decomp_chunks)) + unpacked.decomp_len",
-        ],
+        ] + ([
+            # C02: the recorded CRC covers exactly the bytes contents[offset:result] (every byte consumed, none twice)
+            "old(unpacked.crc32) is None or ufi('crc_fed', unpacked.crc32) == ufi('crc_fed', old(unpacked.crc32)) + (result - offset)",
+            "(old(unpacked.crc32) is None) == (unpacked.crc32 is None)",
+        ] if _f.endswith("_at") else []),
         loops={1: dict(
             invariant=[
                 "max_decomp >= 0 and 0 <= decomp_len and decomp_len <= max_decomp",
                 "chunks_length(decomp_chunks) == old(chunks_length(unpacked.decomp_chunks)) + decomp_len",
-            ] + (["offset <= pos and (pos <= len(contents) or pos == offset)"] if _f.endswith("_at") else []),
+            ] + (["offset <= pos and (pos <= len(contents) or pos == offset)",
+                  "(old(unpacked.crc32) is None) == (crc32 is None)",
+                  "crc32 is None or ufi('crc_fed', crc32) == ufi('crc_fed', old(unpacked.crc32)) + (pos - offset)"] if _f.endswith("_at") else []),
             types={"comp_chunks": "list[opaque]", "crc32": "int?", "unused": "bytes"},
         )},
         options={"yields": "any"},
